@@ -83,8 +83,8 @@ pub fn b64_encode(req: &Value) -> Res<Value> {
     Ok(json!({"stage":"done","ok":general_purpose::STANDARD.encode(b)}))
 }
 
-/// kind "regex_ok": {"ps": [pattern..]} — is the text a regular expression on its own /
-/// through the full-haystack wrapper (what the filter deserialiser compiles)
+/// kind "regex_ok": {"ps": [pattern..]} — Regex::new on the text itself ("raw") and on ^(?:text)$ ("wrapped");
+/// "full_haystack": what tackler's new_full_haystack_regex says
 pub fn regex_ok(req: &Value) -> Res<Value> {
     let ps = req.get("ps").and_then(|x| x.as_array()).ok_or("ps")?;
     let out: Vec<Value> = ps
@@ -92,7 +92,8 @@ pub fn regex_ok(req: &Value) -> Res<Value> {
         .map(|p| {
             let p = p.as_str().unwrap_or("");
             json!({"raw": regex::Regex::new(p).is_ok(),
-                   "wrapped": tackler_rs::regex::new_full_haystack_regex(p).is_ok()})
+                   "wrapped": regex::Regex::new(&format!("^(?:{p})$")).is_ok(),
+                   "full_haystack": tackler_rs::regex::new_full_haystack_regex(p).is_ok()})
         })
         .collect();
     Ok(json!({"stage":"done","ok":out}))
